@@ -24,17 +24,21 @@ func (s *Server) processQueryLogsAndStats(dctx *dnsContext) (rc resultCode) {
 	processingTime := time.Since(dctx.startTime)
 
 	ip := pctx.Addr.Addr().AsSlice()
+
+	// Use the real address to find the persistent client and its ignore
+	// settings, since clients are not stored by their anonymized addresses.
+	// The identifiers are only used for the lookup and are never recorded.
+	ids := []string{net.IP(ip).String()}
+	if dctx.clientID != "" {
+		// Use the ClientID first because it has a higher priority.  Filters
+		// have the same priority, see applyAdditionalFiltering.
+		ids = []string{dctx.clientID, ids[0]}
+	}
+
 	s.anonymizer.Load()(ip)
 	ipStr := net.IP(ip).String()
 
 	log.Debug("dnsforward: client ip for stats and querylog: %s", ipStr)
-
-	ids := []string{ipStr}
-	if dctx.clientID != "" {
-		// Use the ClientID first because it has a higher priority.  Filters
-		// have the same priority, see applyAdditionalFiltering.
-		ids = []string{dctx.clientID, ipStr}
-	}
 
 	qt, cl := q.Qtype, q.Qclass
 
